@@ -38,6 +38,10 @@ Definition rel_close (a b : Qc) : bool := Qc_leb (Qc_abs (a - b)) (Q2Qc (1 # 100
             else:
                 c["snr"] = [rng.choice([1.0, 2.0, 4.0, 0.5]) for _ in range(n)]
             cases.append(c)
+        # integer-typed signals whose squares are large (still exact in int64 and in float64 sums)
+        for vals in ([3000000000, -3000000000, 1, 2], [2 ** 31, 2 ** 31, -(2 ** 31)], [10 ** 9] * 12):
+            cases.append({"a": [float(v) for v in vals], "mode": "lin", "snr": 4.0, "list_input": False, "int64": True})
+            cases.append({"a": [float(v) for v in vals], "mode": "db", "snr": 20.0, "list_input": False, "int64": True})
         return cases
 
     def run(self, c):
@@ -50,6 +54,8 @@ Definition rel_close (a b : Qc) : bool := Qc_leb (Qc_abs (a - b)) (Q2Qc (1 # 100
             calls.append({"loc": loc, "scale": np.asarray(scale, dtype=float).reshape(-1).tolist(), "size": list(size) if size is not None else None})
             return d
         a = list(c["a"]) if c["list_input"] else np.array(c["a"], dtype=float)
+        if c.get("int64"):
+            a = np.array([int(v) for v in c["a"]], dtype=np.int64)
         a0 = np.array(c["a"], dtype=float)
         snr = c.get("snr")
         if isinstance(snr, list) and not c["list_input"]:
@@ -184,7 +190,8 @@ Definition rel_close (a b : Qc) : bool := Qc_leb (Qc_abs (a - b)) (Q2Qc (1 # 100
                 y = [math.sin(v / 3) + rng.uniform(-0.3, 0.3) for v in x]
             else:
                 y = gens.values(rng, n, "dyadic")
-            cases.append({"x": x, "y": y, "kind": kind, "entry": rng.choice(["weaver.smooth", "weaver.to_function", "weaver.to_function_default", "spline_smooth", "match_s"]),
+            cases.append({"x": x, "y": y, "kind": kind, "scale": rng.choice([None, None, 4.0, -3.0, 0.5]),
+                          "entry": rng.choice(["weaver.smooth", "weaver.to_function", "weaver.to_function_default", "spline_smooth", "match_s"]),
                           "s": rng.choice([0.0, 0.0, None, 1e-4, 0.01, 1.0, 100.0])})
         return cases
 
@@ -207,14 +214,19 @@ Definition rel_close (a b : Qc) : bool := Qc_leb (Qc_abs (a - b)) (Q2Qc (1 # 100
         x = np.array(c["x"], dtype=float)
         y = np.array(c["y"], dtype=float)
         try:
+            def mk():
+                # the smoothing condition is stated on the series as it is when smooth / to_function is called:
+                # an earlier scale_y (of the unscaled values) must not change what reaches FITPACK
+                k = c.get("scale")
+                return Weaver(x, y / k).scale_y(k) if k else Weaver(x, y)
             if c["entry"] == "weaver.smooth":
-                w = Weaver(x, y).smooth(c["s"])
+                w = mk().smooth(c["s"])
                 out = {"x": w.x.tolist(), "y": w.y.tolist()}
             elif c["entry"] == "weaver.to_function":
-                f = Weaver(x, y).to_function(c["s"])
+                f = mk().to_function(c["s"])
                 out = {"x": x.tolist(), "y": np.asarray(f(x), dtype=float).tolist()}
             elif c["entry"] == "weaver.to_function_default":
-                f = Weaver(x, y).to_function()
+                f = mk().to_function()
                 out = {"x": x.tolist(), "y": np.asarray(f(x), dtype=float).tolist()}
             elif c["entry"] == "spline_smooth":
                 f = P.spline_smooth(x, y, c["s"])
